@@ -38,6 +38,9 @@ def stepLine (s : St) (line : String) : St × String :=
         ({ setup := ⟨b, p, t⟩, logReq := lq.map Rewrite.canonicalKey, logResp := lp.map Rewrite.canonicalKey }, "setup ok")
       | _, _, _, _, _ => (s, "bad-op")
     | "drain" => (s, "drain ok took=0")
+    -- a request held by a pause whose client gives up and that nobody resumes: when the pause expires the proxy
+    -- answers 504 (to nobody) and logs exactly that; no target was involved
+    | "pausedabort" => (s, "pausedabort n=1 status=504 service=flt target= path=/held")
     | "fault" =>
       match (get kv "mode").bind parseFault, get kv "client", get kv "method", getB kv "path", getB kv "query", getB kv "host", getB kv "hdr" with
       | some f, some client, some method, some path, some query, some host, some hdr =>
